@@ -270,6 +270,7 @@ class Result:
 
     def violation(self, kind, detail, no_input=False):
         """Record a violation; `detail` is a JSON-able dict that lets the failure be replayed."""
+        detail = {("detail_" + k if k in ("property", "kind", "seed", "tier") else k): v for k, v in detail.items()}
         blob = json.dumps(detail, sort_keys=True, default=str)
         name = kind + "-" + hashlib.sha256(blob.encode()).hexdigest()[:12]
         path = self.replay_path(name)
